@@ -317,6 +317,7 @@ func (fm *FieldMask) PathInMask(desc *thrift_reflection.TypeDescriptor, path str
 // getPathAncestor tells if a given path is in current fieldmask, and return the nearest settled ancestor (include itself)
 func (cur *FieldMask) GetPath(desc *thrift_reflection.TypeDescriptor, path string) (*FieldMask, bool) {
 	it := newPathIter(path)
+	desc = unwrapDesc(desc)
 	// println("[PathInMask]")
 	last := cur
 	for it.HasNext() {
@@ -395,7 +396,7 @@ func (cur *FieldMask) GetPath(desc *thrift_reflection.TypeDescriptor, path strin
 			}
 
 			// deep to next desc
-			desc = f.GetType()
+			desc = unwrapDesc(f.GetType())
 			if desc == nil {
 				return nil, false
 			}
@@ -452,7 +453,7 @@ func (cur *FieldMask) GetPath(desc *thrift_reflection.TypeDescriptor, path strin
 			}
 
 			// next fieldmask
-			desc = et
+			desc = unwrapDesc(et)
 			cur = next
 		} else if styp == pathTypeMapL {
 			// get element and key desc
@@ -521,7 +522,7 @@ func (cur *FieldMask) GetPath(desc *thrift_reflection.TypeDescriptor, path strin
 			}
 
 			// next fieldmask
-			desc = et
+			desc = unwrapDesc(et)
 			cur = next
 			// spew.Dump("next ", cur)
 		} else {
